@@ -7,8 +7,10 @@
      nodes : ';'-separated, per node  <flags>/<dkey>/<succ>   flags: f foreign, m manifest, - none
      d0    : ','-separated node ids initially in the destination, or '-'
      trace : ','-separated event tokens or '-': the tokens of ml/c01_main.ml plus
-             XX.n  SX.n  PX.n.ref.stored  TX.n.set  MX.n.stored  MB.n  ME.n.(m|s|c)  QK  QX  CN
-     api   : followed by m when the destination is a registry.Mounter and MountFrom is set
+             XX.n  SX.n  SR.n  FX.n  PX.n.ref.stored  TX.n.set  MX.n.stored  MB.n  ME.n.(m|s|c)  QK  QX  CN
+     api   : optionally followed by /<5 bits> (which of PreCopy PostCopy OnCopySkipped OnMounted MountFrom are
+             set; the invocations of nil callbacks are inserted by Model/CopyFaultOpt.fstep_opt); followed by m when the destination is a Mounter, by c when the root is in the proxy cache at the start
+             (resolveRoot through a ReferenceFetcher); m: when the destination is a registry.Mounter and MountFrom is set
    output: <id> ACC ret=<1|0|-> tag=<n|-> dst=<ids> closed=<1|0>
              closed = the destination was link-closed after EVERY event of the trace (self-check of
              the model-side predicate; the theorem C02_closed_always says it is always 1)
@@ -43,6 +45,8 @@ let event_of tok =
   | ["RT"; b] -> Ev (Ret (bb b))
   | ["XX"; n] -> ExX (nn n)
   | ["SX"; n] -> SFX (nn n)
+  | ["SR"; n] -> SRX (nn n)
+  | ["FX"; n] -> FSX (nn n)
   | ["PX"; n; r; s] -> PuX (nn n, bb r, bb s)
   | ["TX"; n; s] -> TagX (nn n, bb s)
   | ["MX"; n; s] -> MtX (nn n, bb s)
@@ -61,7 +65,16 @@ let () =
     | id :: sn :: sk :: sapi :: sroots :: snodes :: sd0 :: strace :: _ ->
       (try
         let n0 = int_of_string sn in
-        let mount = String.length sapi = 2 && sapi.[1] = 'm' in
+        (* <api>[m][/<5 bits: PreCopy PostCopy OnCopySkipped OnMounted MountFrom set>] *)
+        let sapi, bits = (match String.split_on_char '/' sapi with
+          | [a; b] when String.length b = 5 -> a, b
+          | [a] -> a, "11111"
+          | _ -> failwith "api") in
+        let cs k = (match k with
+          | CPre -> bits.[0] = '1' | CPost -> bits.[1] = '1' | CSkip -> bits.[2] = '1'
+          | CMounted -> bits.[3] = '1' | CMountFrom -> bits.[4] = '1') in
+        let mount = String.contains_from sapi 1 'm' in
+        let cachedroot = String.contains_from sapi 1 'c' in
         let sapi = String.sub sapi 0 1 in
         let ext = (sapi = "x") in
         let n = if ext then n0 + 1 else n0 in
@@ -85,7 +98,7 @@ let () =
         let mode = match sapi with "g" | "x" -> MGraph | "t" -> MTagger | "r" -> MRefPush | _ -> failwith "api" in
         let d0 = List.map nat_of_int (ints sd0) in
         let toks = if strace = "-" then [] else String.split_on_char ',' strace in
-        let tr = List.map event_of toks in
+        List.iter (fun t -> if not (String.length t > 3 && String.sub t 0 3 = "DS.") then ignore (event_of t)) toks;
         (* evaluate the trace on the universe of the first [n] nodes, as a call with configuration
            (root, xroots) in view [ext] *)
         let eval n ext root xroots =
@@ -96,18 +109,31 @@ let () =
                     g_ismf = (fun x -> get ismf false x);
                     g_dkey = (fun x -> let i = int_of_nat x in nat_of_int (if i < n then dkey.(i) else 1000000 + i)) } in
           let c = { c_K = eff_K_gen (z_of_int (int_of_string sk)); c_mode = mode; c_root = nat_of_int root; c_mount = mount;
-                    c_tagmounted = true; c_cached0 = []; c_xroots = List.map nat_of_int xroots } in
+                    c_tagmounted = true; c_cached0 = (if cachedroot then [nat_of_int root] else []); c_xroots = List.map nat_of_int xroots } in
           let closed = ref (closedb g d0) in
-          let rec go fs tr i =
-            match tr with
+          (* DS.<ids> : snapshot of the real destination taken (atomically, controlled schedules) when the
+             preceding event was logged: it must contain everything the model's destination holds, and may
+             exceed it only by nodes whose storing operation is still in flight in the model *)
+          let snapshot_ok fs tok =
+            let ids = (match String.split_on_char '.' tok with
+              | [_; "-"] -> [] | [_; l] -> List.map int_of_string (String.split_on_char '+' l) | _ -> failwith "DS") in
+            let pres = List.filter (fun i -> i < n0) (List.map int_of_nat (present_nodes g fs.fb.dst)) in
+            let inflight i = (match fs.fb.ph (nat_of_int i) with
+              | Pushing (_, _) | Mounting | MtF2 | MtC -> true | _ -> false) in
+            List.for_all (fun i -> List.mem i ids) pres &&
+            List.for_all (fun i -> List.mem i pres || inflight i) ids in
+          let rec go fs toks i =
+            match toks with
             | [] -> Ok fs
-            | e :: tr' ->
-              (match fstep g c ext fs e with
+            | tok :: toks' when String.length tok > 3 && String.sub tok 0 3 = "DS." ->
+              if snapshot_ok fs tok then go fs toks' (i + 1) else Error i
+            | tok :: toks' ->
+              (match fstep_opt cs g c ext fs (event_of tok) with
                | None -> Error i
-               | Some fs' ->
+               | Some (fs', _) ->
                  if not (closedb g fs'.fb.dst) then closed := false;
-                 go fs' tr' (i + 1)) in
-          match go (finit c ext d0) tr 0 with
+                 go fs' toks' (i + 1)) in
+          match go (finit c ext d0) toks 0 with
           | Error i -> Printf.sprintf "REJ %d %s" i (List.nth toks i)
           | Ok fs ->
             let st = fs.fb in
